@@ -10,7 +10,7 @@ RELUTIL = {"pkg": "./pkg/release/util", "files": ["pkg/release/util/h_c08_part.g
 
 REPOPKG = {"pkg": "./pkg/repo", "files": ["pkg/repo/h_c18_index.go"]}
 
-ACTION = {"pkg": "./pkg/action", "files": ["pkg/action/h_common.go", "pkg/action/h_smoke.go", "pkg/action/h_c01_hist.go", "pkg/action/h_c06_dryrun.go", "pkg/action/h_c12_hooks.go", "pkg/action/h_c07_own.go", "pkg/action/h_c14_schema.go", "pkg/action/h_tree.go", "pkg/action/h_c13_reuse.go", "pkg/action/h_c13_deployed.go", "pkg/action/h_c05_order.go", "pkg/action/h_c09_conc.go", "pkg/action/h_c02_uninstall.go"]}
+ACTION = {"pkg": "./pkg/action", "files": ["pkg/action/h_common.go", "pkg/action/h_smoke.go", "pkg/action/h_c01_hist.go", "pkg/action/h_c06_dryrun.go", "pkg/action/h_c12_hooks.go", "pkg/action/h_c07_own.go", "pkg/action/h_c14_schema.go", "pkg/action/h_tree.go", "pkg/action/h_c13_reuse.go", "pkg/action/h_c13_deployed.go", "pkg/action/h_c05_order.go", "pkg/action/h_c09_conc.go", "pkg/action/h_c02_uninstall.go", "pkg/action/h_c02_hist.go"]}
 
 CHARTUTIL = {"pkg": "./pkg/chart/v2/util", "files": ["pkg/chart/v2/util/h_values.go"]}
 
@@ -71,7 +71,7 @@ CHECKS = {
     },
     "C02": {
         "runs": [dict(pkg="./pkg/kube", files=["pkg/kube/h_c02_update.go"], entries=["H02Update", "H02Delete"], bounds_quick={"objects": 2}, bounds_thorough={"objects": 3}),
-                 dict(ACTION, entries=["H02Uninstall"], bounds_quick={"docs": 2}, bounds_thorough={"docs": 3}, limits={"max_instrs": 20000000, "max_decisions": 2000})],
+                 dict(ACTION, entries=["H02Uninstall", "H02Hist"], bounds_quick={"docs": 2}, bounds_thorough={"docs": 3}, limits={"max_instrs": 20000000, "max_decisions": 2000})],
         "bounds": {}, "assumptions": [],
     },
     "C03": {
